@@ -86,6 +86,21 @@ def hash_completeness(ctx, rule='A8'):
         {norm(rr[0].value.left), norm(rr[0].value.comparators[0])} == {'hash(self)', f'hash({eq.params[1]})'}
     ctx.ob(rule, fkey(eq, rule, 'eq-compares-both-hashes'), ok, eq.where,
            'equality compares the structural hash of both operands', short(rr[0]) if rr else 'missing')
+    # the fingerprint has to mean the same in another process: what enters it from a node is the hash of the node's
+    # context *string*, taken now - never a number remembered on the node (it would be pickled along and belongs to
+    # the hash seed of the process that computed it)
+    nf = fp.nested.get('_node_fingerprint')
+    if nf is None:
+        raise AnalysisError('DSG.fingerprint: node fingerprint helper not found')
+    rets_nf = returns_of(nf)
+    rv = rets_nf[-1].value if rets_nf else None
+    ok = isinstance(rv, ast.Call) and norm(rv.func) == 'hash' and len(rv.args) == 1 and \
+        isinstance(rv.args[0], ast.Call) and call_name(rv.args[0]) in ('str_context', 'str', 'get_export_title') and \
+        len(rets_nf) == 1
+    ctx.ob(rule, fkey(nf, rule, 'node-fingerprint-from-string-now'), ok, nf.where,
+           'the fingerprint of a node is hash(<its context string>) computed at the time of the call (supports pickled '
+           'nodes and other processes only if nothing seed-dependent is remembered on the node)',
+           short(rv, 70) if rv is not None else 'missing')
     same = ctx.fn(f'{DSG}.is_same')
     rr = returns_of(same)
     fps = {'self.fingerprint()', f'{same.params[1]}.fingerprint()'}
@@ -181,6 +196,23 @@ def exports(ctx, rule='A8x'):
     g = ctx.fn('adsg_core.graph.export:export_gml')
     ok = 'nx.write_gml(graph, fp, stringizer=str)' in FnText(ctx, g)
     ctx.ob(rule, fkey(g, rule, 'gml-writes-whole-graph'), ok, g.where, 'GML export writes the whole graph', '')
+    # ... and what is written is the graph that was passed in: node *objects* are the identity of a node, their
+    # labels need not be unique (two `Pump` nodes in different branches), so nothing keyed by label may come between
+    from ..cfg import build_rd
+    gcfg = build_cfg(g)
+    grd = build_rd(g)
+    wr = [n for n in gcfg.nodes if n.ast is not None and n.kind in ('stmt', 'test') and
+          any(isinstance(c, ast.Call) and call_name(c) == 'write_gml' for c in ast.walk(n.ast))]
+    if wr:
+        c = [c for c in ast.walk(wr[0].ast) if isinstance(c, ast.Call) and call_name(c) == 'write_gml'][0]
+        a0 = c.args[0] if c.args else None
+        ds = list(grd.defs_of(a0.id, wr[0])) if isinstance(a0, ast.Name) else []
+        ok = isinstance(a0, ast.Name) and a0.id == g.params[0] and all(d.kind == 'entry' for d in ds)
+        ctx.ob(rule, fkey(g, rule, 'gml-writes-the-graph-passed-in'), ok, g.where,
+               'the graph written is the graph passed in (nodes identified by their objects); it is not rebuilt with '
+               'nodes keyed by their label, which merges distinct nodes that share a label',
+               'parameter written as is' if ok else
+               '; '.join(short(d.ast, 70) for d in ds if d.ast is not None) or 'the written object is not the parameter')
 
 
 def check(ctx):
@@ -201,6 +233,10 @@ def check(ctx):
 from ..selftest import V  # noqa: E402
 
 VARIANTS = [
+    V('node-fingerprint-memoised-on-node', 'graph/adsg.py',
+      [("            return hash(node.str_context())", "            if getattr(node, '_ctx_hash', None) is None:\n                node._ctx_hash = hash(node.str_context())\n            return node._ctx_hash")], key='node-fingerprint-from-string-now'),
+    V('gml-nodes-merged-by-label', 'graph/export.py',
+      [("    nx.write_gml(graph, fp, stringizer=str)", "    graph = nx.relabel_nodes(graph, {node: str(node) for node in graph.nodes})\n    nx.write_gml(graph, fp, stringizer=str)")], key='gml-writes-the-graph-passed-in'),
     V('hash-ignores-edges', 'graph/adsg.py',
       [("        return hash((start_nodes, node_hashes, edge_hashes, constraints_hashes))", "        return hash((start_nodes, node_hashes, constraints_hashes))")],
       key='covers:edges'),
